@@ -59,19 +59,19 @@ Lemma accum_spec g E e : forall rest i acc,
   nx r = nx (lastc e a rest (cut rest)) /\ dn r = dn (lastc e a rest (cut rest)).
 Proof.
   induction rest as [|t rest IH]; intros i acc Hacc Hw He; cbn [accum cut].
-  - cbn. repeat split; auto. ring.
+  - cbn. repeat split; auto. (try ring; lra).
   - inversion Hw as [|? ? Ht Hw']; subst.
     assert (Hl : length acc = length t) by lia.
     assert (He' : (e < length acc)) by lia.
     destruct (any_done t) eqn:Hd.
     + cbv zeta. rewrite nth_fuse_step by auto. rewrite fuse_step_length by auto.
-      cbn. repeat split; auto. ring.
+      cbn. repeat split; auto. (try ring; lra).
     + specialize (IH (S i) (fuse_step (qpow g (S i)) acc t)).
       rewrite fuse_step_length in IH by auto.
       specialize (IH eq_refl Hw' He). cbv zeta in IH. rewrite nth_fuse_step in IH by auto.
       destruct IH as (H0 & H1 & H2 & H3 & H4 & H5).
       cbv zeta. repeat split; auto.
-      * rewrite H3. cbn [dsum fuse1 rw]. ring.
+      * rewrite H3. cbn [dsum fuse1 rw]. (try ring; lra).
       * rewrite H4. destruct (cut rest); reflexivity.
       * rewrite H5. destruct (cut rest); reflexivity.
 Qed.
@@ -128,7 +128,7 @@ Proof.
   inversion Hw as [|? ? Hf Hr]; subst.
   unfold n_step_info, disc_sum, cellat. cbn [cut].
   destruct (any_done first) eqn:Hd.
-  - cbn. repeat split; auto. ring.
+  - cbn. repeat split; auto. (try ring; lra).
   - pose proof (accum_spec g (length first) e rest 0 first eq_refl Hr He) as H.
     cbv zeta in H. destruct H as (H0 & H1 & H2 & H3 & H4 & H5).
     cbv zeta. cbn [nth]. repeat split; auto.
